@@ -30,5 +30,11 @@ registry! {
     "C09" => c09,
     "C10" => c10,
     "C11" => c11,
+    "C12" => c12,
     "C13" => c13,
+    "C15" => c15,
+    "C16" => c16,
+    "C17" => c17,
+    "C18" => c18,
+    "C19" => c19,
 }
